@@ -106,6 +106,7 @@ def generate(rng, opts):
         else:
             op = {"op": "fields", "keys": r.sample(info["keys"], r.randint(1, len(info["keys"])))}
         events.insert(0, {"e": "op", "slot": 0, "op": op})
+        ask = r.random() < 0.7
         for ev in events[1:]:
             # slot numbers of the later events move up by one
             if ev["e"] in ("op", "meta") and ev["slot"] >= 1:
@@ -118,6 +119,9 @@ def generate(rng, opts):
                 for it in ev["op"].get("items", []):
                     if it.get("k") == "fromslot" and it["slot"] >= 1:
                         it["slot"] += 1
+        if ask:
+            # ... and what the lazy projection says about itself before anything is materialised
+            events.insert(1, {"e": "meta", "slot": 1, "what": r.choice(["purelist_depth", "minmax_depth", "branch_depth", "type", "keys"])})
     return {"mode": "virtual", "truth": truth, "lazy": lazy, "cache": cache, "events": events,
             "declare": [declare_form, declare_length],
             # half of the runs do not read the whole lazy array first (a read fills a keeping cache, after which
